@@ -202,6 +202,22 @@ def rank_keys(R):
             for x in walk(t):
                 if x[0] == 'dictcomp' and x[2][0] == 'tuple' and len(x[2][1]) == 2:
                     out.append((x[2], e, ctx))
+                # dict(zip(zip(LEC, STUDENTS), RANKS)): element-wise keys (LEC[i], STUDENTS[i])
+                if x[0] == 'call' and x[1] == S('dict') and len(x[2]) == 1 and x[2][0][0] == 'call' and x[2][0][1] == S('zip') and len(x[2][0][2]) == 2:
+                    kz = x[2][0][2][0]
+                    if kz[0] == 'call' and kz[1] in (S('list'), S('tuple')) and len(kz[2]) == 1:
+                        kz = kz[2][0]
+                    if kz[0] == 'call' and kz[1] == S('zip') and len(kz[2]) == 2:
+                        la, sa_ = kz[2]
+                        def elem_of(a):
+                            if a[0] == 'bin' and a[1] == 'Mult':
+                                for lst, n_ in ((a[2], a[3]), (a[3], a[2])):
+                                    if lst[0] == 'list' and len(lst[1]) == 1:
+                                        return lst[1][0]
+                            if a[0] == 'comp':
+                                return a[2]
+                            return ('idx', a, S('<i>'))
+                        out.append((('tuple', (elem_of(la), elem_of(sa_))), e, ctx))
     seen, uniq = set(), []
     for k, e, c in out:
         if k not in seen:
@@ -378,10 +394,10 @@ def check_reader(rep, R):
             ifs = [c for c, _ in ctx if c.kind == 'if']
             fors = [c for c, _ in ctx if c.kind == 'for']
             pair = e.target[1]
-            okd = len(fors) == 2 and fors[0].binder[3] == A(R.model, 'pairs') and fors[1].binder[3] == fors[0].binder and pair == fors[1].binder and not ifs
+            okd = all_pairs_loops(fors, R.model) and pair == fors[-1].binder and not ifs
             rep.check(okd, 'C10.R4', w, 'rank_lecturer is set for every pair of every student, unconditionally under -twopl %s' % cfg,
                       got='guards=%s loops=%s' % ([show(c.cond)[:60] for c in ifs], [show(c.binder[3])[:40] for c in fors]), construct='rank_lecturer coverage %s' % cfg, loc=e.loc)
-            v = e.value
+            v = idnorm(R.repo, e.value)
             okk = v[0] == 'idx' and v[2] == ('tuple', (A(pair, 'lecturerID'), A(pair, 'studentID')))
             rep.check(okk, 'C10.R4', w, 'the rank looked up is that of (own lecturer, own student) %s' % cfg, got=show(v)[-80:], want='ranks[(pair.lecturerID, pair.studentID)]',
                       construct='rank key ' + (show(v[2]).replace(show(pair), 'pair') if v[0] == 'idx' else show(v)[:60]), loc=e.loc)
@@ -393,11 +409,55 @@ def check_reader(rep, R):
         pair = e.target[1]
         fors = [c for c, _ in ctx if c.kind == 'for']
         ifs = [c for c, _ in ctx if c.kind == 'if']
-        okd = len(fors) == 2 and fors[0].binder[3] == A(R.model, 'pairs') and pair == fors[1].binder and not ifs
-        v = e.value
-        okv = v[0] == 'idx' and v[2] == A(pair, 'project_index')
+        okd = all_pairs_loops(fors, R.model) and pair == fors[-1].binder and not ifs
+        v = idnorm(R.repo, e.value)
+        okv = v[0] == 'idx' and v[2] in (A(pair, 'project_index'), BIN('Sub', A(pair, 'projectID'), C(1)))
         rep.check(okd and okv, 'C10.R6', w, "a pair's lecturer is the lecturer of its own project, for every pair %s" % cfg, got=show(v)[-60:].replace(show(pair), 'pair'),
                   want='project_lecturers[pair.project_index]', construct='pair lecturer %s' % (show(v[2]).replace(show(pair), 'pair') if v[0] == 'idx' else '?'), loc=e.loc)
+
+
+def all_pairs_loops(fors, model):
+    """the enclosing loops visit every pair of every student: rows of model.pairs x row, or chain.from_iterable(model.pairs)"""
+    from ..shapes import all_pairs_chain
+    return bool(fors) and all_pairs_chain(tuple((c.binder, TRUE) for c in fors), model) is not None
+
+
+_id_facts = {}
+
+
+def idnorm(repo, t):
+    """ids and indices of a Pair: <x>_index = <x>ID - 1 is read off Pair's own constructor / setters (every store of an
+    *_index attribute in class Pair); then  p.<x>_index + 1  ->  p.<x>ID  and  p.<x>ID - 1  ->  p.<x>_index."""
+    key = repo.root
+    if key not in _id_facts:
+        facts = {}
+        for name, f in repo.classes.get('Pair', {}).items():
+            for n in ast.walk(f.node):
+                if isinstance(n, ast.Assign) and len(n.targets) == 1 and isinstance(n.targets[0], ast.Attribute) and isinstance(n.targets[0].value, ast.Name) \
+                        and n.targets[0].value.id == 'self' and n.targets[0].attr.endswith('_index'):
+                    v = n.value
+                    if isinstance(v, ast.BinOp) and isinstance(v.op, ast.Sub) and isinstance(v.right, ast.Constant) and v.right.value == 1:
+                        src = v.left
+                        # self.studentID - 1  or  <param> - 1 where self.<x>ID = <param> is stored in the same function
+                        if isinstance(src, ast.Attribute) and isinstance(src.value, ast.Name) and src.value.id == 'self':
+                            facts[n.targets[0].attr] = src.attr
+                        elif isinstance(src, ast.Name):
+                            for m in ast.walk(f.node):
+                                if isinstance(m, ast.Assign) and len(m.targets) == 1 and isinstance(m.targets[0], ast.Attribute) and isinstance(m.value, ast.Name) and m.value.id == src.id \
+                                        and isinstance(m.targets[0].value, ast.Name) and m.targets[0].value.id == 'self' and m.targets[0].attr.endswith('ID'):
+                                    facts[n.targets[0].attr] = m.targets[0].attr
+        _id_facts[key] = facts
+    facts = _id_facts[key]
+    inv = {v: k for k, v in facts.items()}
+    def f(x):
+        if x[0] == 'bin' and x[1] == 'Add' and x[3] == C(1) and x[2][0] == 'attr' and x[2][2] in facts:
+            return A(x[2][1], facts[x[2][2]])
+        if x[0] == 'bin' and x[1] == 'Add' and x[2] == C(1) and x[3][0] == 'attr' and x[3][2] in facts:
+            return A(x[3][1], facts[x[3][2]])
+        if x[0] == 'bin' and x[1] == 'Sub' and x[3] == C(1) and x[2][0] == 'attr' and x[2][2] in inv:
+            return A(x[2][1], inv[x[2][2]])
+        return None
+    return subst(t, f)
 
 
 def stab_gated_functions(repo):
